@@ -202,17 +202,53 @@ package stack
 //@   trusted
 //@   modifies r.refs
 
+// ASSUMED frame: creating a network endpoint changes no field of the Stack object itself.
 //@ func (*NIC).addAddressLocked props C09
 //@   trusted
-//@   ensures implies(result2 == nil, result1 != nil)
-//@   modifies everything()
+//@   ensures implies(result2 == nil, result1 != nil && result1.ep != nil)
+//@   modifies everything_but(Stack)
 
 //@ func (*NIC).getRef props C09
 //@   requires n != nil
 //@   requires forall(j, 0, len(n.subnets), tcpip.subnetOK(n.subnets[j]))
-//@   requires forallkey(k, n.endpoints, implies(has(n.endpoints, k), n.endpoints[k] != nil))
+//@   requires forallkey(k, n.endpoints, implies(has(n.endpoints, k), n.endpoints[k] != nil && n.endpoints[k].ep != nil))
+//@   ensures implies(result != nil, result.ep != nil)
 //@   ensures implies(result != nil, old(has(n.endpoints, NetworkEndpointID{dst})) || old(n.promiscuous) || exists(j, 0, old(len(n.subnets)), old(tcpip.subnetHas(n.subnets[j], dst))))
 //@   ensures implies(result != nil && !old(n.promiscuous) && forall(j, 0, old(len(n.subnets)), !old(tcpip.subnetHas(n.subnets[j], dst))), result == old(n.endpoints[NetworkEndpointID{dst}]))
 //@   loop 1 invariant implies(!promiscuous, !n.promiscuous && forall(j, 0, rangeindex + 1, !tcpip.subnetHas(n.subnets[j], dst)))
 //@   loop 1 invariant implies(promiscuous, n.promiscuous || exists(j, 0, len(n.subnets), tcpip.subnetHas(n.subnets[j], dst)))
+//@   modifies everything_but(Stack)
+
+// ASSUMED interface contracts of network protocols and endpoints as seen from the NIC:
+// the query methods change nothing; handing a packet to a network endpoint is counted.
+//@ func (NetworkProtocol).Number props C09
+//@   nobody
+//@ func (NetworkProtocol).MinimumPacketSize props C09
+//@   nobody
+//@ func (NetworkProtocol).ParseAddresses props C09
+//@   nobody
+//@ func (NetworkEndpoint).HandlePacket props C09
+//@   nobody
+//@   ghost_set netHandled = old(ghost(netHandled)) + 1
+//@   modifies everything(), ghost(netHandled)
+//@ func (*referencedNetworkEndpoint).decRef props C09
+//@   trusted
 //@   modifies everything()
+//@ func (*Stack).Forwarding props C09
+//@   trusted
+//@   pure
+
+//@ define nicOK(n) = n != nil && n.stack != nil && n.linkEP != nil && statsOK(n.stack.stats) && forall(j, 0, len(n.subnets), tcpip.subnetOK(n.subnets[j])) && forallkey(k, n.endpoints, implies(has(n.endpoints, k), n.endpoints[k] != nil && n.endpoints[k].ep != nil)) && forallkey(p, n.stack.networkProtocols, implies(has(n.stack.networkProtocols, p), n.stack.networkProtocols[p] != nil))
+
+// DeliverNetworkPacket: the destination address handed to the address check is the one
+// parsed from the packet; the packet is handed to a network endpoint only through a
+// reference the address check (or, with forwarding enabled, the forwarding lookup) gave out,
+// with a route whose local address is that destination - and at most once.
+//@ func (*NIC).DeliverNetworkPacket props C09
+//@   requires nicOK(n) && linkEP != nil
+// (the forwarding branch - packets for other hosts handed to another NIC - is not covered)
+//@   requires !n.stack.Forwarding()
+//@   at_call getRef requires dst == caller(dst) && protocol == caller(protocol)
+//@   at_call HandlePacket requires r.ref != nil && recv == r.ref.ep && r.NetProto == protocol && r.ref == ref && r.LocalAddress == dst && r.RemoteAddress == src
+//@   ensures ghost(netHandled) == old(ghost(netHandled)) || ghost(netHandled) == old(ghost(netHandled)) + 1
+//@   modifies everything(), ghost(netHandled)
